@@ -87,9 +87,9 @@ func genConc(r *rand.Rand, n int, separate bool) []Case {
 		expiring := !separate && r.Intn(6) == 0
 		if expiring {
 			setup = append(setup,
-				map[string]interface{}{"loc": "L0", "op": "addfact", "id": "i0", "expires_in": 1.0,
+				map[string]interface{}{"loc": "L0", "op": "addfact", "id": "i0", "expires_in": 2.0,
 					"fact": map[string]interface{}{"k": "x", "n": 1.0}},
-				map[string]interface{}{"loc": "L0", "op": "addrule", "id": "ri1", "expires_in": 1.0,
+				map[string]interface{}{"loc": "L0", "op": "addrule", "id": "ri1", "expires_in": 2.0,
 					"rule": rulePat(map[string]interface{}{"k": "?v"})})
 		}
 		var clients []interface{}
